@@ -1641,6 +1641,11 @@ int main(int argc, char **argv)
         uint64_t seed = argc >= 3 ? strtoull(argv[2], 0, 10) : 1;
         hv::rng r(seed);
         c20_gen(r, argc >= 4 ? argv[3] : "quick");
+        // round 3b: leave without TSan's exit handler - a race the pre-main walk ran into (it uses the library with a real
+        // second thread, in this process too) must not turn into "generator failed" without a replay; the `run` side
+        // reports it with the op it was given
+        fflush(stdout);
+        syscall(SYS_exit_group, 0);
         return 0;
     }
     if (argc >= 2 && !strcmp(argv[1], "run"))
